@@ -197,7 +197,7 @@ def main(argv: list[str] | None = None) -> int:
 def check_floors(ctx: Ctx, col: Collector) -> list[str]:
     bad = []
     for cls, of, frac in ctx.floors:
-        tot = col.classes.get(of, 0) if of else col.evaluations
+        tot = col.classes.get(of, 0) if of else col.evaluations - col.classes.get("fuzz", 0)  # "all" = all generated (non-campaign) cases
         got = col.classes.get(cls, 0)
         if tot == 0 or got / tot < frac:
             bad.append(f"class {cls!r} is {got}/{tot} of {of or 'all'} (< {frac:.0%})")
